@@ -481,9 +481,9 @@ func (st *Runtime) executeList(list *ListNode) (returnValue reflect.Value) {
 			}
 
 			if isTrue(st.evalPrimaryExpressionGroup(node.Expression)) {
-				returnValue = st.executeList(node.List)
+				returnValue = lastReturn(returnValue, st.executeList(node.List))
 			} else if node.ElseList != nil {
-				returnValue = st.executeList(node.ElseList)
+				returnValue = lastReturn(returnValue, st.executeList(node.ElseList))
 			}
 			if isLet {
 				st.releaseScope()
@@ -527,7 +527,9 @@ func (st *Runtime) executeList(list *ListNode) (returnValue reflect.Value) {
 
 			indexValue, rangeValue, end := ranger.Range()
 			if !end {
-				for !end && !returnValue.IsValid() {
+				// a return in the body ends the iteration; a value returned earlier in this list does not
+				var bodyReturn reflect.Value
+				for !end && !bodyReturn.IsValid() {
 					if isSet {
 						if isLet {
 							if keyVarSlot >= 0 {
@@ -548,11 +550,12 @@ func (st *Runtime) executeList(list *ListNode) (returnValue reflect.Value) {
 					if valVarSlot < 0 {
 						st.context = rangeValue
 					}
-					returnValue = st.executeList(node.List)
+					bodyReturn = st.executeList(node.List)
 					indexValue, rangeValue, end = ranger.Range()
 				}
+				returnValue = lastReturn(returnValue, bodyReturn)
 			} else if node.ElseList != nil {
-				returnValue = st.executeList(node.ElseList)
+				returnValue = lastReturn(returnValue, st.executeList(node.ElseList))
 			}
 			cleanup()
 			st.context = context
@@ -561,7 +564,7 @@ func (st *Runtime) executeList(list *ListNode) (returnValue reflect.Value) {
 			}
 		case NodeTry:
 			node := node.(*TryNode)
-			returnValue = st.executeTry(node)
+			returnValue = lastReturn(returnValue, st.executeTry(node))
 		case NodeYield:
 			node := node.(*YieldNode)
 			if node.IsContent {
@@ -584,7 +587,7 @@ func (st *Runtime) executeList(list *ListNode) (returnValue reflect.Value) {
 			st.executeYieldBlock(block, block.Parameters, block.Parameters, block.Expression, block.Content)
 		case NodeInclude:
 			node := node.(*IncludeNode)
-			returnValue = st.executeInclude(node)
+			returnValue = lastReturn(returnValue, st.executeInclude(node))
 		case NodeReturn:
 			node := node.(*ReturnNode)
 			returnValue = st.evalPrimaryExpressionGroup(node.Value)
@@ -592,6 +595,15 @@ func (st *Runtime) executeList(list *ListNode) (returnValue reflect.Value) {
 	}
 
 	return returnValue
+}
+
+// lastReturn is the value of the last return statement executed so far: next if the
+// construct that was just executed returned a value, else what was returned before.
+func lastReturn(prev, next reflect.Value) reflect.Value {
+	if next.IsValid() {
+		return next
+	}
+	return prev
 }
 
 func (st *Runtime) executeTry(try *TryNode) (returnValue reflect.Value) {
